@@ -9,7 +9,9 @@ import numpy as np
 from py2coq import factories_ti
 from py2coq.ir import Untranslatable, evaluate
 
-ARC = 1 - math.cos(math.pi / 64)       # shapely's default quad_segs=16: worst chord sagitta of a buffer arc, relative to r
+# shapely's default quad_segs=16 (fillet quantum pi/32).  GEOS divides each corner's arc into round(total/quantum) equal steps, so a step can be
+# up to 1.5 quanta and the point of the arc nearest to an axis direction up to 0.75 quanta away from it: worst sagitta relative to r
+ARC = 1 - math.cos(0.75 * math.pi / 32)
 
 
 def measure(p):
